@@ -241,6 +241,37 @@ class MetricTranslator:
                 for ob in obl[n0:]:
                     ob.assume += (sp.Not(cond),)
                 return (rest[0], sp.Piecewise((a, cond), (rest[1], True)))
+            if isinstance(s, ast.If) and not any(isinstance(n, (ast.Return, ast.For, ast.While)) for b in (s.body, s.orelse)
+                                                for st in b for n in ast.walk(st)):
+                # `if c: v = A else: v = B` on scalar values: a flag fixed by the caller picks the arm, otherwise v is piecewise
+                kc, cond = self._expr(s.test, env, ops, obl, fi, depth)
+                if kc != "bool":
+                    raise AnalysisError(f"{fi.name}:{s.lineno}: `if` on a non-scalar condition")
+                if cond in (sp.true, sp.false):
+                    if self._block(s.body if cond == sp.true else s.orelse, env, ops, obl, fi, depth) is not None:
+                        raise AnalysisError(f"{fi.name}:{s.lineno}: unexpected value")
+                    i += 1
+                    continue
+                ea, eb = dict(env), dict(env)
+                n0 = len(obl)
+                self._block(s.body, ea, ops, obl, fi, depth)
+                for ob in obl[n0:]:
+                    ob.assume += (cond,)
+                n0 = len(obl)
+                self._block(s.orelse, eb, ops, obl, fi, depth)
+                for ob in obl[n0:]:
+                    ob.assume += (sp.Not(cond),)
+                for name in list(dict.fromkeys(list(ea) + list(eb))):
+                    va, vb = ea.get(name), eb.get(name)
+                    if va == vb:
+                        if va is not None:
+                            env[name] = va
+                        continue
+                    if va is None or vb is None or va[0] != vb[0] or va[0] not in ("scalar", "vec"):
+                        raise AnalysisError(f"{fi.name}:{s.lineno}: '{name}' is not assigned a value of one kind on both arms")
+                    env[name] = (va[0], sp.Piecewise((va[1], cond), (vb[1], True)))
+                i += 1
+                continue
             # a metric that stores into one of its arguments changes the caller's vectors (and its own later results)
             params = set(fi.params)
             for st0 in fi.node.body:  # plain aliases of an argument (`dist = x`)
@@ -345,7 +376,9 @@ class MetricTranslator:
     def _expr(self, node, env, ops, obl, fi, depth) -> Tuple[str, object]:
         line = getattr(node, "lineno", 0)
         if isinstance(node, ast.Constant):
-            if isinstance(node.value, bool) or not isinstance(node.value, (int, float)):
+            if isinstance(node.value, bool):
+                return ("bool", sp.true if node.value else sp.false)  # a flag handed to a helper
+            if not isinstance(node.value, (int, float)):
                 raise AnalysisError(f"{fi.name}: constant {node.value!r} outside the whitelist")
             return ("scalar", sp.nsimplify(node.value, rational=True))
         if isinstance(node, ast.Name):
@@ -471,6 +504,11 @@ class MetricTranslator:
             if f in ("np.sqrt", "math.sqrt") and len(args) == 1:
                 obl.append(Obligation("sqrt", args[0][1], unparse(node.args[0]), line))
                 return (args[0][0], sp.sqrt(args[0][1]))
+            if f in ("np.where", "numpy.where") and len(args) == 3 and args[0][0] in ("boolvec", "bool") \
+                    and args[1][0] in ("vec", "scalar") and args[2][0] in ("vec", "scalar"):
+                # element-wise selection; both arms are evaluated for every element, so their obligations stand as they are
+                kind = "vec" if "vec" in (args[1][0], args[2][0]) or args[0][0] == "boolvec" else "scalar"
+                return (kind, sp.Piecewise((args[1][1], args[0][1]), (args[2][1], True)))
             if f in ("np.minimum", "np.maximum", "min", "max") and len(args) == 2:
                 kind = "vec" if "vec" in (args[0][0], args[1][0]) else "scalar"
                 fn = sp.Min if f in ("np.minimum", "min") else sp.Max
